@@ -240,6 +240,59 @@ def check(run: Run) -> None:
         failures += 1
         run.report("C11/assign-equal-value", {"definition": "union tw { uint16 words[2]; uint32 q; };", "ops": [{"op": "w = u.words; w[1] = 0xBEEF; u.words = w", "observed": repr((hex(uw.q), uw.dumps().hex())), "expected": "q = 0xbeef0000, dump 0000efbe"}]})
 
+    # an assignment the member's type REJECTS (wrong element count, integer out of range) leaves the union as it was: members still views of its bytes
+    for utext, attr, badval in (("union ur { uint8 r[4]; uint32 w; };", "r", [9]), ("union ur { uint8 r[4]; uint32 w; };", "w", 1 << 40),
+                                ("union ur { uint16 h; struct { uint8 x; uint8 y; } s; };", "h", -70000)):
+        n_oracle += 1
+        cs_r = cstruct()
+        cs_r.load(utext)
+        ur = cs_r.ur(bytes([1, 2, 3, 4])[:len(cs_r.ur)])
+        before = (repr(ur), ur.dumps())
+        try:
+            setattr(ur, attr, badval)
+            outcome = "accepted"
+        except Exception as e:  # noqa: BLE001
+            outcome = type(e).__name__
+        try:
+            after = (repr(ur), ur.dumps())
+        except Exception as e:  # noqa: BLE001
+            after = f"dumps raises {type(e).__name__}"
+        if outcome == "accepted" or after != before:
+            failures += 1
+            run.report("C11/rejected-assignment", {"definition": utext, "ops": [{"op": f"u.{attr} = {badval!r} ({outcome})", "observed": repr(after), "expected": repr(before) + " (and an error)"}]})
+
+    # a union writes exactly its size wherever the stream stands: into a stream that already holds bytes, and as a member of a packed structure
+    # when the union itself was loaded in aligned mode (mixed modes)
+    import io as _io
+    for utext, uname, payload in (("union ua { uint8 a; uint32 b; };", "ua", bytes([1, 2, 3, 4])), ("union ub { uint16 a; uint8 b[3]; };", "ub", bytes([9, 8, 7, 0])),
+                                  ("union uc { uint64 q; struct { uint8 x; uint16 y; } s; };", "uc", bytes(range(1, 9)))):
+        for compiled in (False, True):
+            cs_w = cstruct()
+            cs_w.load(utext, align=True, compiled=compiled)
+            cs_w.load(f"struct rec {{ uint8 k; {uname} u; uint8 t; }}; struct recs {{ uint8 k; {uname} u[2]; uint16 t; }};", compiled=compiled)
+            U = cs_w.resolve(uname)
+            for k in range(0, 5):
+                n_oracle += 1
+                st = _io.BytesIO(b"\xaa" * k)
+                st.seek(k)
+                U(payload[:len(U)] + bytes(max(0, len(U) - len(payload)))).write(st)
+                if len(st.getvalue()) - k != len(U):
+                    failures += 1
+                    run.report("C11/write-size", {"definition": utext, "load_kwargs": {"compiled": compiled, "align": True},
+                               "ops": [{"op": f"write into a stream that already holds {k} bytes", "observed": len(st.getvalue()) - k, "expected": len(U)}]})
+                    break
+            for rname in ("rec", "recs"):
+                n_oracle += 1
+                R = cs_w.resolve(rname)
+                raw = bytes((7 * i + 3) % 251 for i in range(len(R)))
+                v = R(raw)
+                out = v.dumps()
+                back = R(out + bytes(8))
+                if len(out) != len(R) or back.t != v.t or back.k != v.k:
+                    failures += 1
+                    run.report("C11/write-size", {"definition": utext + f" struct {rname} (packed) embedding it", "load_kwargs": {"compiled": compiled, "align": "union aligned, structure packed"},
+                               "ops": [{"op": "parse, dump, parse", "observed": repr((len(out), back.k, back.t)), "expected": repr((len(R), v.k, v.t))}]})
+
     res, errs = run_shards("C11h", ["Definition checks : list bool := [\n" + ";\n".join("  " + x for x in hist_checks[i:i + 80]) + "\n]." for i in range(0, len(hist_checks), 80)], "Model.Union")
     for e in errs:
         run.violation({"kind": "correspondence", "theorem_or_correspondence": "corr_union", "error": e[:800]}, tag="corr-shard-error", no_input=True)
